@@ -19,7 +19,8 @@ ASSUMPTIONS = [
     "for a zero tempo the model decides which events it governs; the chart must be rejected iff one exists",
 ]
 
-TEMPO = ((0, 120000), (10, 90000), (20, 150000), (30, 60000))
+TEMPO = ((0, 120000), (10, 90000), (20, 150000), (30, 60000), (40, 200000), (50, 1000))
+TEMPO_DENSE = ((0, 120000), (1, 90000), (2, 150000), (3, 60000), (4, 200000))
 KINDS = ("TS", "text", "section", "lyric", "S", "E", "N", "Nend")
 LONG = (9, 10, 16, 17, 18, 33, 40, 65)  # tempo-map lengths around plausible fast-path thresholds
 
@@ -61,9 +62,12 @@ def setup():
 
 
 def plan(tier, seed):
-    shards = [("corrupt", k) for k in range(1, 5)] + [("zero", k, j) for k in range(1, 5) for j in range(k)] + [("queries",)]
+    kmax = 4 if tier == "quick" else 6
+    shards = [("corrupt", k) for k in range(1, kmax + 1)] + [("zero", k, j) for k in range(1, kmax + 1) for j in range(k)] + [("queries",)]
+    if tier == "thorough":
+        shards += [("corrupt", -k) for k in range(2, 6)] + [("zero", -k, j) for k in range(2, 6) for j in range(k)]
     shards += [("long", n) for n in LONG]
-    return dict(shards=shards, bounds=dict(tempo_events="1..4", event_kinds=list(KINDS), placements="tick-1, tick, tick+1 of each tempo event"), budget_s=300)
+    return dict(shards=shards, bounds=dict(tempo_events="1..%d%s" % (kmax, "" if tier == "quick" else " (gaps 10) and 2..5 (gaps 1)"), event_kinds=list(KINDS), placements="tick-1, tick, tick+1 of each tempo event"), budget_s=300)
 
 
 def event_lines(kind, t):
@@ -112,7 +116,8 @@ def run_shard(shard, ctx):
     kind = shard[0]
     if kind == "corrupt":
         k = shard[1]
-        b = list(TEMPO[:k])
+        b = list(TEMPO[:k]) if k > 0 else list(TEMPO_DENSE[:-k])
+        k = abs(k)
         ctx.node()
         placements = [((), (), ())]
         for kd in KINDS:
@@ -142,7 +147,7 @@ def run_shard(shard, ctx):
                 expect(ctx, chart(back, extra=extra), "tempo event %d moved before its predecessor" % (j + 1))
     elif kind == "zero":
         _, k, j = shard
-        b = list(TEMPO[:k])
+        b = list(TEMPO[:k]) if k > 0 else list(TEMPO_DENSE[:-k])
         z = list(b)
         z[j] = (b[j][0], 0)
         ctx.node()
